@@ -74,6 +74,11 @@ pub mod verif_api {
     pub fn total_needed_pages(value_size: usize) -> usize {
         crate::beatree::verif_total_needed_pages(value_size)
     }
+
+    /// Segment size of the rollback logs opened on this thread from now on (`None`: the default).
+    pub fn set_rollback_segment_size(size: Option<u64>) {
+        crate::rollback::VERIF_SEGMENT_SIZE.with(|c| c.set(size));
+    }
 }
 
 const MAX_COMMIT_CONCURRENCY: usize = 64;
